@@ -10,14 +10,15 @@
    each deviation is a realistic way of getting the mechanism wrong and must be caught by the
    properties below (sensitivity of the specification, see MC_FairQueue_*.cfg).              *)
 EXTENDS Naturals, Sequences, FiniteSets, TLC
-CONSTANTS Keys, MaxItems, MaxTicket, MaxStale, MaxGen, AllowRemove, Dev
+CONSTANTS Keys, MaxItems, MaxTicket, MaxStale, AllowRemove, Dev
 
 VARIABLES
   heap,      \* set of <<ticket, key, n>> ready events; n disambiguates duplicates
   streams,   \* keys whose stream object is in the map
   counter,   \* ticket counter
-  wslot,     \* receiver waker slot: 0 = None, else the generation of the task/future whose waker it holds
-  gen,       \* generation of the current receiver future (a new recv call after a cancel has a new waker)
+  wslot,     \* receiver waker slot is Some
+  wcur,      \* the waker in the slot belongs to the current recv future (every recv call is a new future
+             \* that may be polled with a different waker; a finished or dropped call's waker is dead)
   pc,        \* "idle" | "l1" | "poll" | "l2" | "l3" | "parked"
   cur,       \* event checked out by the poller, or <<>>
   avail,     \* avail[k]: items readable now
@@ -32,17 +33,17 @@ VARIABLES
   wait,      \* wait[k]: deliveries to others since k became ready and signalled
   stale      \* number of stale (duplicate) wakes performed
 
-vars == <<heap, streams, counter, wslot, gen, pc, cur, avail, left, closed, reg, fire, notified, joined,
+vars == <<heap, streams, counter, wslot, wcur, pc, cur, avail, left, closed, reg, fire, notified, joined,
           removed, delivered, wait, stale>>
 
 \* waking the waker in the slot reaches the receiver only if it belongs to the current future
-Wakes == wslot # 0 /\ wslot = gen
+Wakes == wslot /\ wcur
 HasEv(k) == \E e \in heap : e[2] = k
 MinEv == CHOOSE e \in heap : \A f \in heap : e[1] < f[1] \/ (e[1] = f[1] /\ e[3] <= f[3])
 NextDup(t, k) == Cardinality({e \in heap : e[1] = t /\ e[2] = k})
 
 Init ==
-  /\ heap = {} /\ streams = {} /\ counter = 0 /\ wslot = 0 /\ gen = 1 /\ pc = "idle" /\ cur = <<>>
+  /\ heap = {} /\ streams = {} /\ counter = 0 /\ wslot = FALSE /\ wcur = FALSE /\ pc = "idle" /\ cur = <<>>
   /\ avail = [k \in Keys |-> 0] /\ left = [k \in Keys |-> MaxItems] /\ closed = [k \in Keys |-> FALSE]
   /\ reg = [k \in Keys |-> 0] /\ fire = [k \in Keys |-> FALSE] /\ notified = FALSE /\ joined = {}
   /\ removed = {} /\ delivered = [k \in Keys |-> 0] /\ wait = [k \in Keys |-> 0] /\ stale = 0
@@ -56,7 +57,7 @@ Insert(k) ==       \* QueueInner::insert under the lock (peer_connected)
   /\ counter' = counter + 1
   /\ notified' = IF "insert_no_wake" \in Dev THEN notified ELSE (notified \/ Wakes)  \* wake_by_ref, slot kept
   /\ UNCHANGED <<wslot, pc, cur, avail, left, closed, reg, fire, removed, delivered, wait, stale>>
-  /\ UNCHANGED gen
+  /\ UNCHANGED wcur
 
 Produce(k) ==      \* bytes of one more complete message arrive on k's transport
   /\ k \in joined /\ left[k] > 0 /\ ~closed[k]
@@ -64,14 +65,14 @@ Produce(k) ==      \* bytes of one more complete message arrive on k's transport
   /\ avail' = [avail EXCEPT ![k] = @ + 1]
   /\ fire' = [fire EXCEPT ![k] = (reg[k] # 0)]
   /\ UNCHANGED <<heap, streams, counter, wslot, pc, cur, closed, reg, notified, joined, removed, delivered, wait, stale>>
-  /\ UNCHANGED gen
+  /\ UNCHANGED wcur
 
 Close(k) ==
   /\ k \in joined /\ ~closed[k]
   /\ closed' = [closed EXCEPT ![k] = TRUE]
   /\ fire' = [fire EXCEPT ![k] = (reg[k] # 0)]
   /\ UNCHANGED <<heap, streams, counter, wslot, pc, cur, avail, left, reg, notified, joined, removed, delivered, wait, stale>>
-  /\ UNCHANGED gen
+  /\ UNCHANGED wcur
 
 Fire(k) ==         \* StreamWaker::wake_by_ref, under the queue lock
   /\ fire[k] /\ reg[k] # 0
@@ -79,9 +80,9 @@ Fire(k) ==         \* StreamWaker::wake_by_ref, under the queue lock
   /\ reg' = [reg EXCEPT ![k] = 0]
   /\ fire' = [fire EXCEPT ![k] = FALSE]
   /\ notified' = (notified \/ Wakes)
-  /\ wslot' = IF "waker_not_taken" \in Dev THEN wslot ELSE 0      \* waker.take()
+  /\ wslot' = IF "waker_not_taken" \in Dev THEN wslot ELSE FALSE      \* waker.take()
   /\ UNCHANGED <<streams, counter, pc, cur, avail, left, closed, joined, removed, delivered, wait, stale>>
-  /\ UNCHANGED gen
+  /\ UNCHANGED wcur
 
 StaleFire(k) ==    \* a source wakes an old clone of a StreamWaker again (spurious / duplicate wake)
   /\ stale < MaxStale /\ k \in joined /\ delivered[k] > 0
@@ -89,16 +90,16 @@ StaleFire(k) ==    \* a source wakes an old clone of a StreamWaker again (spurio
         /\ heap' = heap \cup {<<t, k, NextDup(t, k)>>}
   /\ stale' = stale + 1
   /\ notified' = (notified \/ Wakes)
-  /\ wslot' = 0
+  /\ wslot' = FALSE
   /\ UNCHANGED <<streams, counter, pc, cur, avail, left, closed, reg, fire, joined, removed, delivered, wait>>
-  /\ UNCHANGED gen
+  /\ UNCHANGED wcur
 
 Remove(k) ==       \* QueueInner::remove (peer_disconnected); only while k is not checked out
   /\ AllowRemove /\ k \in streams
   /\ streams' = streams \ {k}
   /\ removed' = removed \cup {k}
   /\ UNCHANGED <<heap, counter, wslot, pc, cur, avail, left, closed, reg, fire, notified, joined, delivered, wait, stale>>
-  /\ UNCHANGED gen
+  /\ UNCHANGED wcur
 
 \* ---- receiver task ---------------------------------------------------------------------------
 Begin ==           \* application calls recv / executor re-polls after a wake
@@ -106,16 +107,17 @@ Begin ==           \* application calls recv / executor re-polls after a wake
      \/ pc = "parked" /\ notified
   /\ pc' = "l1" /\ notified' = FALSE
   /\ UNCHANGED <<heap, streams, counter, wslot, cur, avail, left, closed, reg, fire, joined, removed, delivered, wait, stale>>
-  /\ UNCHANGED gen
+  /\ UNCHANGED wcur
 
 Cancel ==          \* the recv future is dropped while parked (select!, timeout, proxy); the next call has a new waker
-  /\ pc = "parked" /\ gen < MaxGen
-  /\ pc' = "idle" /\ gen' = gen + 1
+  /\ pc = "parked"
+  /\ pc' = "idle" /\ wcur' = FALSE
   /\ UNCHANGED <<heap, streams, counter, wslot, cur, avail, left, closed, reg, fire, notified, joined, removed, delivered, wait, stale>>
 
 L1 ==              \* first critical section of one loop iteration
   /\ pc = "l1"
-  /\ wslot' = IF "waker_kept_if_some" \in Dev /\ wslot # 0 THEN wslot ELSE gen     \* inner.waker = Some(cx.waker().clone())
+  /\ wslot' = TRUE                                                   \* inner.waker = Some(cx.waker().clone())
+  /\ wcur' = IF "waker_kept_if_some" \in Dev /\ wslot THEN wcur ELSE TRUE
   /\ IF heap = {}
        THEN /\ pc' = "parked" /\ UNCHANGED <<heap, streams, cur>>
        ELSE LET e == MinEv IN
@@ -124,7 +126,6 @@ L1 ==              \* first critical section of one loop iteration
                  THEN /\ streams' = streams \ {e[2]} /\ cur' = e /\ pc' = "poll"
                  ELSE /\ UNCHANGED <<streams, cur>> /\ pc' = "l1"
   /\ UNCHANGED <<counter, avail, left, closed, reg, fire, notified, joined, removed, delivered, wait, stale>>
-  /\ UNCHANGED gen
 
 PollStream ==      \* stream polled outside the lock with StreamWaker(cur)
   /\ pc = "poll"
@@ -136,7 +137,7 @@ PollStream ==      \* stream polled outside the lock with StreamWaker(cur)
          ELSE /\ reg' = [reg EXCEPT ![k] = cur[1] + 1] /\ fire' = [fire EXCEPT ![k] = FALSE]
               /\ pc' = "l3" /\ UNCHANGED <<avail, cur>>
   /\ UNCHANGED <<heap, streams, counter, wslot, left, closed, notified, joined, removed, delivered, wait, stale>>
-  /\ UNCHANGED gen
+  /\ UNCHANGED wcur
 
 Signalled(k) == HasEv(k) \/ (cur # <<>> /\ cur[2] = k)
 
@@ -150,15 +151,15 @@ L2 ==              \* Ready(Some): re-queue with a fresh ticket, put the stream 
      /\ wait' = [j \in Keys |-> IF j = k THEN 0
                                ELSE IF j \in streams /\ avail[j] > 0 /\ HasEv(j) THEN wait[j] + 1 ELSE wait[j]]
   /\ counter' = counter + 1 /\ cur' = <<>> /\ pc' = "idle"
+  /\ wcur' = FALSE                                   \* the call returns: its future (and waker) is finished
   /\ UNCHANGED <<wslot, avail, left, closed, reg, fire, notified, joined, removed, stale>>
-  /\ UNCHANGED gen
 
 L3 ==              \* Pending: put the stream back, continue with the next event
   /\ pc = "l3"
   /\ streams' = IF "pending_not_put_back" \in Dev THEN streams ELSE streams \cup {cur[2]}
   /\ cur' = <<>> /\ pc' = "l1"
   /\ UNCHANGED <<heap, counter, wslot, avail, left, closed, reg, fire, notified, joined, removed, delivered, wait, stale>>
-  /\ UNCHANGED gen
+  /\ UNCHANGED wcur
 
 Receiver == Begin \/ L1 \/ PollStream \/ L2 \/ L3
 Other == \E k \in Keys : Insert(k) \/ Produce(k) \/ Close(k) \/ Fire(k) \/ StaleFire(k) \/ Remove(k)
@@ -169,7 +170,7 @@ FairSpec == Spec /\ WF_vars(Receiver) /\ \A k \in Keys : WF_vars(Fire(k))
 
 \* ---- properties (layer A seen through the model's own variables) ---------------------------
 TypeOK ==
-  /\ streams \subseteq Keys /\ joined \subseteq Keys /\ counter \in 0..MaxTicket /\ gen \in 1..MaxGen /\ wslot \in 0..MaxGen
+  /\ streams \subseteq Keys /\ joined \subseteq Keys /\ counter \in 0..MaxTicket
   /\ pc \in {"idle", "l1", "poll", "l2", "l3", "parked"}
   /\ (cur = <<>>) <=> (pc \notin {"poll", "l2", "l3"})
 
